@@ -1,17 +1,17 @@
-\* PROPOSED repairs "persist" and "onchain" on top of the code (Fixes = Intended): trees T4i, 2 restarts: all properties hold
+\* tree T4j (the valid prefix of the abandoned branch makes a proposal), one observer, in order and children first, 2 restarts: all properties
 SPECIFICATION Spec
 CONSTANTS
   N = 4
   Byz <- Byz3
   Nodes <- Obs1
-  Blk0s <- T4iExec
-  MaxBlocks = 12
+  Blk0s <- T4jExec
+  MaxBlocks = 7
   MaxRestarts = 2
   ByzMode = "branch"
   ByzRanges <- R123
   Runs = TRUE
   BadKinds <- OnlyOk
-  Fixes <- Intended
+  Fixes <- AllFixes
 VIEW view
 INVARIANTS TypeOK LibOnMain ConfirmsOnMain ProposalsOnMain StatusBestIsBest Agreement HonestConfirms
 PROPERTIES LibMonotone Final NoForkBelowLib LibQuorum RestoreEqualsRecompute AfterAbandonedReorgStatusMatchesMainChain
